@@ -19,6 +19,7 @@ CHECKS = {
  'C08': ('model_checking', 'tlc-algebra', 'Provenance well-formedness (keys exact, non-empty, duplicate-free, depths present and ordered, exactly the declaring inputs) is an invariant of every SigMachine result over universes with equal and different star names, and is evaluated by TLC on every result the real merge/embed/mask/forwards return.', '§5 C08'),
  'C09': ('model_checking', 'tlc-algebra', 'Exactness and raise-iff of merge on name-aligned role-consistent inputs as TLC invariants over all pairs, and evaluated on real merge outputs; the identity, idempotence, neutral-element, sort/apply and fold laws are checked by TLC as equalities between two REAL results logged in one event.', '§5 C09'),
  'C10': ('model_checking', 'tlc-algebra', 'The metadata rules (optional only if all optional; common default else None; agreed annotation else none; kinds only restrict; order; outer defaults dropped only before a required inner positional; partial keywords) as TLC invariants over a universe extended with distinct default and annotation ids, and evaluated by TLC on real results computed with real default/annotation objects.', '§5 C10'),
+ 'C11': ('model_checking', 'tlc-algebra', 'Annotation ids in the abstract signatures are DENOTATIONS (the object an annotation denotes in the globals of the function that defined it): inputs by construction, outputs through source_value() of the real results. With that projection the metadata contract (agreed annotation else none; survivors keep theirs) is an invariant of SigMachine over the metadata universe and is evaluated by TLC on real merge / embed / mask / forwards results computed on functions compiled with and without the future flag, with shared and per-function globals binding the same names to different objects; plus evaluated() = source_value(), postponed-then-evaluated = eager twin, and annotate values verbatim, as equalities between two real results.', '§5 C11'),
  'C12': ('model_checking', 'tlc-modifiers', 'spec/Modifiers.tla transcribes _PokTranslator._prepare (advertised signature, ValueError conditions, kwopos table), the start=/end=/exceptions= name-set computations and the args.insert routing loop of __call__; TLC checks over all base functions x selections x calls that _prepare raises exactly on inadmissible selections, advertises the rewrite the property demands, and that routing + binding to the original function delivers exactly what binding to the advertised signature prescribes. The same space is run on the real decorators (functions and methods on instances, four retrieval routes, every shape of the complete call set with distinguishable values) and TLC (Trace_Modifiers) evaluates admissibility, rewrite, accepts-exactly, full delivery map and TypeError-on-rejection on each event.', '§5 C12'),
  'C13': ('model_checking', 'tlc-wrap', 'spec/WrapMachine.tla: stacks of wrapper functions around a base function; the reported signature is the fold of the Forwards model and the invariant ChainSound says every non-colliding call it accepts passes the whole chain of CPython bindings (Wrappers!ChainOutcome), checked by TLC over simulated stacks of depth <= 3. Real stacks built with wrappers.decorator / wrappers.wrapper_decorator (function, method, staticmethod) and wrappers.Combination are retrieved through four routes and really called on the call set next to the hand-written composition; TLC (Trace_Wrap) checks result-equality for every call, soundness of every reported signature, method binding, wrappers() listing, and (drift) that ChainOutcome predicted which calls run.', '§5 C13'),
  'C14': ('model_checking', 'tlc-obj', 'spec/ObjModel.tla states the equality the property demands over abstract objects (family, upgraded or plain, plain-data id, upgraded-annotation id) and TLC checks it reflexive, symmetric, hash-consistent and twin-respecting over the menagerie (and shows it is not transitive). Real menageries (upgraded signatures through three routes, merge results, postponed annotations, plain twins, one-field variants, parameters, foreign objects) are compared in all ordered pairs with == / != / hash, and str / bind / bind_partial / replace are exercised next to plain twins; TLC (Trace_Obj) evaluates totality, symmetry, negation, reflexivity, agreement with SpecEq, hash laws, drop-in behaviour and replace semantics on every event.', '§5 C14'),
@@ -33,7 +34,6 @@ NOTES = {
 }
 PENDING = {
  'C07': 'check under construction (Retrieval model + corpus)',
- 'C11': 'check under construction (annotation-context model)',
  'C17': 'check under construction (concurrent Retrieval model + line-level scheduler)',
 }
 
